@@ -240,7 +240,98 @@ def gen_linspace_more(tier, rng):
                    tags=['linspace', 'linspace.long', 'dtype=' + d, 'endpoint=%d' % e])
 
 
-GENS = [gen_where_more, gen_arange_long, gen_linspace_more]
+# ---------------------------------------------------------------------------------------------------------------
+# compile-time-constant argument forms of the generators (h_c04e.cpp, `kind=`): the views pick different shape
+# containers / branches for integral constants (tri: tuple{N,M}; full: tuple shape; arange: shape computed in the
+# type; linspace: tuple<num_t>).  Same request as the run-time form plus `kind=`, so the Lean driver answers identically.
+# Tables must match PAIRS / SHAPES / TRIPLES / STOPS / STEPS in h_c04e.cpp.
+# ---------------------------------------------------------------------------------------------------------------
+
+CT_PAIRS = [(2, 3), (3, 2), (3, 4), (4, 2), (1, 3), (3, 3), (1, 1)]
+CT_SHAPES = [(2, 3), (3, 2), (1, 3), (4,), (2, 1, 3), (3, 1)]
+CT_TRIPLES = [(0, 4, 1), (1, 8, 3), (2, 9, 2), (-2, 5, 2), (7, 1, -2), (5, 2, 1), (3, 3, 1), (4, -3, -3), (-3, 4, 1), (0, 6, 1)]
+CT_STOPS = [0, 1, 4, 6, 8, 9]
+CT_STEPS = [-3, -2, 1, 2, 3]
+
+
+def gen_ct_forms(tier, rng):
+    def ktag(k):
+        return 'k<0' if k < 0 else 'k=0' if k == 0 else 'k>0'
+    for op, fn in (('tri', np.tri), ('eye', np.eye)):
+        def case(n, m, k, kind):
+            o = ans(fn(n, m, k, dtype=np.int64))
+            return Case('%s n=%d m=%s k=%d kind=%s' % (op, n, 'None' if m is None else str(m), k, kind), H_E, oracle=o,
+                        tags=[op, 'ct-form', 'kind=' + kind, ktag(k), 'square' if m in (None, n) else 'non-square'])
+        for n, m in CT_PAIRS:
+            for k in range(-3, 4):
+                yield case(n, m, k, 'ct')
+            for k in (-1, 0, 1):
+                yield case(n, m, k, 'ctk')
+        for n in range(1, 5):
+            for k in range(-2, 3):
+                yield case(n, None, k, 'ctn')
+            for k in (-1, 0, 1):
+                yield case(n, None, k, 'ctnk')
+            for m in (1, 2, 3, 5):
+                for k in (-1, 0, 2):
+                    yield case(n, m, k, 'ctn-m')
+                    yield case(m, n, k, 'n-ctm')
+    for n in range(1, 5):
+        yield Case('identity n=%d kind=ct' % n, H_E, oracle=ans(np.identity(n, dtype=np.int64)), tags=['identity', 'ct-form', 'kind=ct'])
+    # full / zeros / ones: constant shape tuple, mixed tuple; *_like on a fixed-shape array
+    mixed = [(n, r) for n in range(1, 5) for r in (1, 2, 5)] + [(n, r, p) for n in (1, 2, 4) for r in (1, 3) for p in (1, 3)]
+    for kind, shs in (('ct', CT_SHAPES), ('mixed', mixed)):
+        for sh in shs:
+            t = ['ct-form', 'kind=' + kind, 'rank=%d' % len(sh)]
+            for v in (-1, 7):
+                yield Case('full shape=%s value=%d kind=%s' % (fmt(sh), v, kind), H_E, oracle=ans(np.full(sh, v, dtype=np.int64)), tags=['full'] + t)
+            yield Case('zeros shape=%s kind=%s' % (fmt(sh), kind), H_E, oracle=ans(np.zeros(sh, dtype=np.int64)), tags=['zeros'] + t)
+            yield Case('ones shape=%s kind=%s' % (fmt(sh), kind), H_E, oracle=ans(np.ones(sh, dtype=np.int64)), tags=['ones'] + t)
+    for sh in ((2, 3), (3, 2), (4,)):
+        t = ['ct-form', 'kind=fixed', 'rank=%d' % len(sh)]
+        yield Case('full_like shape=%s value=5 kind=fixed' % fmt(sh), H_E, oracle=ans(np.full(sh, 5, dtype=np.int64)), tags=['full_like'] + t)
+        yield Case('zeros_like shape=%s kind=fixed' % fmt(sh), H_E, oracle=ans(np.zeros(sh, dtype=np.int64)), tags=['zeros_like'] + t)
+        yield Case('ones_like shape=%s kind=fixed' % fmt(sh), H_E, oracle=ans(np.ones(sh, dtype=np.int64)), tags=['ones_like'] + t)
+    # arange
+    def acase(start, stop, step, kind):
+        o = np.arange(start, stop, step, dtype=np.int64)
+        req = 'arange start=%d stop=%d step=%s dtype=int kind=%s' % (start, stop, 'None' if step is None else str(step), kind)
+        return Case(req, H_E, oracle=ans(o), nontrivial=o.size > 1,
+                    tags=['arange', 'ct-form', 'kind=' + kind, 'empty' if o.size == 0 else 'non-empty',
+                          'step=None' if step is None else 'step<0' if step < 0 else 'step>0'])
+    for a, b, c in CT_TRIPLES:
+        yield acase(a, b, c, 'ct')
+        if c == 1:
+            yield acase(a, b, None, 'ct')
+            yield acase(a, b, None, 'ct-none')
+        if a >= 0 and b >= a and c > 0:
+            yield acase(a, b, c, 'ctu')
+            if c == 1:
+                yield acase(a, b, None, 'ctu')
+    for stop in CT_STOPS:
+        o = np.arange(stop, dtype=np.int64)
+        yield Case('arange stop=%d dtype=int kind=ct1' % stop, H_E, mreq='arange start=0 stop=%d step=None dtype=int' % stop,
+                   oracle=ans(o), nontrivial=o.size > 1, tags=['arange', 'ct-form', 'kind=ct1'])
+        for start in (-2, 0, 3, 10):
+            for step in (None, 1, 2, -1, -3):
+                yield acase(start, stop, step, 'ct-stop')
+    for step in CT_STEPS:
+        for start in (-3, 0, 4):
+            for stop in (-4, 0, 5, 9):
+                yield acase(start, stop, step, 'ct-step')
+    # linspace: constant num (and constant endpoint)
+    for num in range(1, 7):
+        for e in (0, 1):
+            for a, b in ((0, 4), (0, 16), (-6, 5), (8, 8), (7, -9)):
+                for kind, d in (('ct', 'float'), ('ct', 'double'), ('ctnum', 'double')):
+                    vals = [linspace_def(a, b, num, e, k) for k in range(num)]
+                    o = 'ok shape=%d data=%s' % (num, ','.join(fmt_q(v) for v in vals))
+                    yield Case('linspace %s %s num=%d endpoint=%d dtype=%s kind=%s' % (lin_key('start', a), lin_key('stop', b), num, e, d, kind),
+                               H_E, oracle=o, cmp=c04_bc.cmp_real, nontrivial=num > 1 and a != b,
+                               tags=['linspace', 'ct-form', 'kind=' + kind, 'dtype=' + d, 'endpoint=%d' % e, 'num=%d' % num])
+
+
+GENS = [gen_where_more, gen_arange_long, gen_linspace_more, gen_ct_forms]
 
 
 def gen_more(tier, rng):
